@@ -64,6 +64,14 @@ def with_table(line, calls, table):
     return line + ' (parses ' + ' '.join(table[t] for t in dict.fromkeys(need) if t in table) + ')'
 
 
+def near_dups(t):
+    """texts a too-clever cache key could confuse with `t`: other amounts / kinds of blanks (also INSIDE string literals and
+    %...% names, where they are significant), other letter case, other quotes, leading blanks / newlines, a trailing comment"""
+    r = t.rstrip()
+    return [t, t, r + ' ', r + '\n', r, ' ' + t, '\n' + t, t.replace(' ', '  '), t.replace('  ', ' '), t.replace(' ', '\t'),
+            t.replace('\t', ' '), t.lower(), t.upper(), t.replace('"', "'"), r + ' # c', r + ';', t.replace(' ', '')]
+
+
 def history(rng, texts, cache, evals_only=False):
     he = proggen.HostEnv(rng)
     nmaps = rng.randint(1, 3)
@@ -92,7 +100,7 @@ def history(rng, texts, cache, evals_only=False):
             prev = [c for c in calls if c[0] in ('parse', 'eval')]
             if prev:
                 t = rng.choice(prev)[1]
-                t = rng.choice([t, t, t.rstrip() + ' ', t.rstrip() + '\n', t.rstrip()])
+                t = rng.choice(near_dups(t))
         if rng.random() < 0.2:
             # a call site of a builtin that one of the mappings may rebind
             t = rng.choice(CALLSITES)
